@@ -40,6 +40,8 @@ inductive Ev where
   | childCertIssued (ch : Handle) (rcn : Rcn) (ki : KeyId)
   | childKeyRevoked (ch : Handle) (rcn : Rcn) (ki : KeyId)
   | childUpdatedResources (ch : Handle) (res : ResSet)
+  /-- `ChildUpdatedIdCert` (the certificate itself is not modelled) -/
+  | childUpdatedId (ch : Handle)
   /-- `ChildUpdatedResourceClassNameMapping` -/
   | childMapping (ch : Handle) (nameInParent nameForChild : Rcn)
   | childRemoved (ch : Handle)
@@ -48,7 +50,7 @@ inductive Ev where
   | parentAdded (p : Handle)
   | parentRemoved (p : Handle)
   | repoUpdated
-  /-- events that touch nothing modelled here (route/ASPA/BGPsec definitions, id, RTA, `ParentUpdated`, `ChildUpdatedIdCert`) -/
+  /-- events that touch nothing modelled here (route/ASPA/BGPsec definitions, `IdUpdated`, RTA, `ParentUpdated`) -/
   | other
 deriving DecidableEq, Repr
 
